@@ -277,9 +277,9 @@ def walk_rules(repo):
     if [x for x in src if x in (a, b, c)] == [a, b, c]:
         out.append(holds("PREFIX-PERM", fs, role, "; ".join((a, b, c)), fs.node))
     elif "next_idxs_ = numpy.random.permutation(n)" in src or "next_idxs_[:] = numpy.random.permutation(n)" in src:
-        out.append(violation("PREFIX-PERM", fs, role, "the whole successor list is permuted: the last edge can move and the walk can strand", fs.node))
+        out.append(named("PREFIX-PERM", fs, role, "the whole successor list is permuted: the last edge can move and the walk can strand", fs.node))
     elif any(x.startswith("next_idxs_[1:] = numpy.random.permutation") for x in src):
-        out.append(violation("PREFIX-PERM", fs, role, "the FIRST edge is kept instead of the last", fs.node))
+        out.append(named("PREFIX-PERM", fs, role, "the FIRST edge is kept instead of the last", fs.node))
     else:
         out.append(unrecognised("PREFIX-PERM", fs, role, str([x for x in src if "next_idxs" in x])[:200]))
     role = "the walk consumes each character's successor list monotonically and emits one character per position"
